@@ -494,10 +494,16 @@ def aggregate(prop, tier, seed, results, t_start, write_baseline, extra_mod, qui
             reach(u, dep)
         bad = sorted(dep & refuted_fns)
         outside = sorted(d for d in dep if d not in uses)    # contracts whose own check is not part of this property run
+        und_fns = {o.split('/')[1] for o in undecided}
         if bad:
             explained.append(f'{q}[{shp}] fails natively on {w.get("inputs")}: explained by refuted callee contract(s) {bad}')
-        elif outside:
-            explained.append(f'{q}[{shp}] fails natively on {w.get("inputs")}: relies on contracts checked under other properties {outside}')
+        elif outside or (dep & und_fns):
+            # the proof of this shape is relative to callee contracts that this run did not establish (undecided here, or checked under
+            # another property): the native failure on the real code stands on its own and is reported against this function
+            oid = obligation_id(prop, q, shp, 'native')
+            why = f'callee contract(s) not established in this run: {sorted(dep & und_fns) or outside}'
+            failures.append((oid, q, shp, 'native', dict(w, found_by='native cross-check of a modularly proved shape', note=why)))
+            obligations.append({'id': oid, 'verdict': 'refuted', 'backend': 'bounded-native', 'seconds': 0, 'kind': 'public', 'reason': why})
         else:
             checker_errors.append(f'UNSOUND: {q}[{shp}] was proved but fails natively on {w.get("inputs")}')
     # ---- known findings
